@@ -168,8 +168,13 @@ class Gen:
         # early exits at every legal position class: start / middle / end / inside a nested if
         if ctx_kind is not None and r.random() < self.cfg.get("p_exit", 0.45):
             ex = self.exit_stmt() if ctx_kind != "while" or r.random() < 0.3 else ["X"]
-            where = r.choice(["start", "mid", "end", "if", "if"])
-            if where == "start":
+            where = r.choice(["start", "mid", "end", "if", "if", "aftermod"])
+            if where == "aftermod":
+                # the parser hands everything after a modifier to a recursive call: an exit that FOLLOWS a modifier
+                # (or a modifier-made lambda) in the same body is parsed by that inner call
+                out.append(["t", r.choice(["3ɾ ⁽› M _", "1 2 ‡+d _", "1 ≬›d› _", "3ɾ v› _", "2 &› ", "⟨1|2⟩ ƒ+ _", "3ɾ ⁽₂ F _"])])
+                out.append(ex)
+            elif where == "start":
                 out.insert(0, ex)
             elif where == "mid":
                 out.insert(r.randint(0, len(out)), ex)
